@@ -158,6 +158,7 @@ def make_check(op):
 @st.composite
 def mut_case(draw, op):
     c = draw(ops.full_case(op))
+    c["args"].pop("interleave", None)     # (the interleaved training call of the gradient checks updates buffers by design)
     c["layout"] = draw(st.sampled_from(["independent", "views", "views", "alias"]))
     c["second"] = draw(st.booleans())
     if draw(st.integers(0, 2)) == 0:
